@@ -87,6 +87,10 @@ fn main() {
                     calm: get("calm", 0) != 0,
                     ldrop: get("ldrop", 0) != 0,
                     bp: get("bp", 0) != 0,
+                    fault_kind: match get("fault_kind", 0) { 1 => "sink_err", 2 => "stream_err", 3 => "stream_end", 4 => "stall", 5 => "stall_both", _ => "" },
+                    fault_dir: get("fault_dir", 1),
+                    fault_at: get("fault_at", 0),
+                    timeout_ms: get("timeout_ms", 0),
                     ..Default::default()
                 };
                 rt.block_on(chmux_life::scenario(s, &opts));
